@@ -135,3 +135,50 @@ func VerifC02_NSECZoneSoundness() {
 		vAssert("nodata-at-a-zone-cut-only-for-ds", q.name == "w.example.")
 	}
 }
+
+// VerifC02_AggressiveNSECZoneSoundness: the RFC 8198 classifier, whose
+// verdicts become shared negative-cache state, over the same zone model: from
+// any subset of the genuine chain it never synthesises an NXDOMAIN for a name
+// that exists nor a NODATA for a type that is present (or, at a zone cut, for
+// anything but DS), and never for a name the zone's records say nothing about.
+//
+//verif:entry tier=quick,thorough
+//verif:also C19
+//verif:expect synthesised-nxdomain-only-for-a-name-that-does-not-exist synthesised-nodata-only-for-an-absent-type synthesised-nodata-at-a-zone-cut-only-for-ds some-denial-synthesised
+//verif:bound as VerifC02_NSECZoneSoundness (8-record chain, every subset, 19 query names, 6 query types), signer zone example.
+//verif:outside NSEC3 (EvaluateAggressiveNSEC3: hashing is out of the encoder's reach); admission and expiry of the proof cache
+func VerifC02_AggressiveNSECZoneSoundness() {
+	var set []dns.RR
+	for i, o := range c02zChain {
+		if vBool("nsec.present") {
+			next := c02zChain[(i+1)%len(c02zChain)].name
+			set = append(set, &dns.NSEC{Hdr: dns.RR_Header{Name: o.name, Rrtype: dns.TypeNSEC, Class: dns.ClassINET, Ttl: 300}, NextDomain: next, TypeBitMap: o.types})
+		}
+	}
+	q := c02zQueries[vChoice("qname", len(c02zQueries))]
+	qtype := []uint16{dns.TypeA, dns.TypeTXT, dns.TypeNS, dns.TypeDS, dns.TypeCNAME, dns.TypeDNAME}[vChoice("qtype", 6)]
+	res, err := EvaluateAggressiveNSEC(dns.Question{Name: q.name, Qtype: qtype, Qclass: dns.ClassINET}, "example.", set)
+	if err != nil {
+		return
+	}
+	vReach("some-denial-synthesised")
+	if res.Rcode == dns.RcodeNameError {
+		vAssert("synthesised-nxdomain-only-for-a-name-that-does-not-exist", q.deniable)
+		return
+	}
+	switch {
+	case q.owner:
+		vAssert("synthesised-nodata-only-for-an-absent-type", res.Rcode == dns.RcodeSuccess && !c02zHas(c02zTypes(q.name), qtype) && !c02zHas(c02zTypes(q.name), dns.TypeCNAME))
+		if q.cut {
+			vAssert("synthesised-nodata-at-a-zone-cut-only-for-ds", qtype == dns.TypeDS)
+		}
+	case q.wild:
+		vAssert("synthesised-nodata-only-for-an-absent-type", res.Rcode == dns.RcodeSuccess && qtype != dns.TypeTXT)
+	case q.deniable:
+		vAssert("synthesised-nodata-only-for-an-absent-type", false)
+	default:
+		// the empty non-terminal w.example. (NODATA is the truth); nothing
+		// below a cut or a DNAME
+		vAssert("synthesised-nodata-at-a-zone-cut-only-for-ds", q.name == "w.example.")
+	}
+}
